@@ -57,12 +57,13 @@ Definition parse_named (S : schema) (n : string) (nullable : bool) : option (ann
   | Some (DCustom (Some c)) => Some (annotation_name (object_name (sc_type c)) nullable, Some n)
   end.
 
-(* _parse_type_node: note that a list passes ITS OWN nullable flag down to its items (F21) *)
+(* _parse_type_node: list items start nullable again (since /repo 0db841f; before that a list passed
+   ITS OWN flag down to its items, the signature half of F21) *)
 Fixpoint parse_type_node (S : schema) (t : gtype) (nullable : bool) : option (ann * option string) :=
   match t with
   | TNamed n => parse_named S n nullable
   | TList t' =>
-      match parse_type_node S t' nullable with
+      match parse_type_node S t' true with
       | Some (a, u) => Some (if nullable then AOptional (AList a) else AList a, u)
       | None => None
       end
@@ -71,15 +72,45 @@ Fixpoint parse_type_node (S : schema) (t : gtype) (nullable : bool) : option (an
 
 Definition ann_is_nullable (a : ann) : bool := match a with AOptional _ => true | _ => false end.
 
-Inductive dictval := DName (py : string) | DCall (fn py : string).
+(* expressions of the variables dict (since /repo d163d56: _generate_serialize_expr) *)
+Inductive sexpr :=
+| EVar (x : string)                                   (* x *)
+| ECall (f : string) (x : string)                     (* f(x) *)
+| EComp (item : string) (elt : sexpr) (x : string)    (* [elt for item in x] *)
+| EGuard (top : bool) (x : string) (e : sexpr).       (* x if x is None [or x is UNSET] else e *)
 
-Definition dictval_str (d : dictval) : string :=
-  match d with DName p => p | DCall f p => f ++ "(" ++ p ++ ")" end.
+Definition dictval := sexpr.
+
+Fixpoint dictval_str (d : sexpr) : string :=
+  match d with
+  | EVar x => x
+  | ECall f x => f ++ "(" ++ x ++ ")"
+  | EComp i e x => "[" ++ dictval_str e ++ " for " ++ i ++ " in " ++ x ++ "]"
+  | EGuard top x e => x ++ " if " ++ x ++ " is None" ++ (if top then " or " ++ x ++ " is UNSET" else "")
+                        ++ " else " ++ dictval_str e
+  end.
+
+Definition item_name (depth : nat) : string := "_item" ++ z_to_string (Z.of_nat depth).
+
+(* _generate_serialize_expr(node, value, serialize_name, nullable, depth): the value is always a name *)
+Fixpoint gen_se (t : gtype) (x f : string) (nullable : bool) (depth : nat) : sexpr :=
+  match t with
+  | TNonNull t' => gen_se t' x f false depth
+  | TList t' =>
+      let e := EComp (item_name depth) (gen_se t' (item_name depth) f true (Datatypes.S depth)) x in
+      if nullable then EGuard (Nat.eqb depth 0) x e else e
+  | TNamed _ =>
+      let e := ECall f x in
+      if nullable then EGuard (Nat.eqb depth 0) x e else e
+  end.
 
 Record param := { p_name : string; p_ann : ann; p_required : bool }.
 
 Definition arg_flags (snake : bool) : pflags := {| f_snake := snake; f_trim := false; f_reserved := false |}.
-Definition pname (snake : bool) (s : string) : string := l2s (process_name (arg_flags snake) (s2l s)).
+(* process_name, then (since /repo a558946) a name equal to `self` or `kwargs` gets one "_" appended *)
+Definition pname (snake : bool) (s : string) : string :=
+  let p := l2s (process_name (arg_flags snake) (s2l s)) in
+  if String.eqb p "self" || String.eqb p "kwargs" then p ++ "_" else p.
 
 (* the serialize function name used for a variable, if any *)
 Definition ser_name (S : schema) (used : option string) : option string :=
@@ -91,8 +122,8 @@ Definition ser_name (S : schema) (used : option string) : option string :=
               end
   end.
 
-Definition dict_value (S : schema) (py : string) (used : option string) : dictval :=
-  match ser_name S used with Some f => DCall f py | None => DName py end.
+Definition dict_value (S : schema) (py : string) (used : option string) (t : gtype) : dictval :=
+  match ser_name S used with Some f => gen_se t py f true 0 | None => EVar py end.
 
 (* one variable definition -> (parameter, dict entry) *)
 Definition gen_one (S : schema) (snake : bool) (v : vardef) : option (param * (string * dictval)) :=
@@ -102,7 +133,7 @@ Definition gen_one (S : schema) (snake : bool) (v : vardef) : option (param * (s
   | Some (a, used) =>
       let req := negb (ann_is_nullable a) in
       Some ({| p_name := py; p_ann := if req then a else AUnionUnset a; p_required := req |},
-            (v_name v, dict_value S py used))
+            (v_name v, dict_value S py used (v_type v)))
   end.
 
 Record generated := { g_params : list param;                  (* after self, before **kwargs *)
